@@ -17,3 +17,7 @@ pub mod scenarios;
 pub mod tape;
 pub mod world;
 pub mod xmlcheck;
+
+/// Install the backend of the vendored HTTP client's transport and clock seam (for the shadow CLI,
+/// which does not depend on `verif_net` itself).
+pub fn install_http_transport(b: Box<dyn verif_net::Net>) { verif_net::install(b); }
